@@ -142,6 +142,57 @@ def _step_multiple(node, epoch_name, mod):
     return None
 
 
+def data_interval_loop(ctx, chk, rule):
+    """classify_intervals: one call of populate_zeta_interval per data-interval label that actually occurs in grid_time
+    (SELECT DISTINCT / GROUP BY ... IS NOT NULL), each with its own label.  Shared by C03.O6 and C01.O2."""
+    ci = ctx.func("classify.classify_intervals")
+    ciflow = Flow.of(ci)
+    loopvar = None
+    call_arg_ok = False
+    for n in ast.walk(ci.node):
+        if isinstance(n, ast.For) and isinstance(n.target, ast.Name):
+            for c in ast.walk(n):
+                if isinstance(c, ast.Call) and ctx.cg.resolve_callee(ci, c.func) == ["classify.populate_zeta_interval"]:
+                    callee = ctx.func("classify.populate_zeta_interval")
+                    idx = callee.params.index("data_interval") if "data_interval" in callee.params else 1
+                    a = c.args[idx] if len(c.args) > idx else None
+                    call_arg_ok = isinstance(a, ast.Name) and a.id == n.target.id
+                    loopvar = n
+    src_ok = False
+    src_known = False
+    if loopvar is not None and isinstance(loopvar.iter, ast.Name):
+        for b in bindings(ctx, ci):
+            if loopvar.iter.id in b.names:
+                sel = b.site.stmt
+                col0 = sel.columns[0][0] if sel.columns else None
+                grouped = bool(sel.group_by) and col0 is not None and len(sel.group_by) == 1 and sel.group_by[0] == col0
+                src_ok = (sel.distinct or grouped) and any(c[0] == "bin" and c[1] == "ISNOT" and c[3] == ("null",) for c in conjuncts(sel.where))
+                src_known = True
+    if loopvar is not None and not src_known:
+        it_ = loopvar.iter
+        itv = ciflow.def_value(it_) if isinstance(it_, ast.Name) else it_
+        if isinstance(itv, ast.Call) and isinstance(itv.func, ast.Name) and itv.func.id == "range":
+            agg_src = None
+            for b in bindings(ctx, ci):
+                if any(nm and any(isinstance(x, ast.Name) and x.id == nm for a_ in itv.args for x in ast.walk(a_)) for nm in b.names):
+                    e0 = b.site.stmt.columns[0][0] if b.site.stmt.columns else None
+                    if e0 is not None and e0[0] == "call" and e0[1] in ("MAX", "COUNT"):
+                        agg_src = "%s(%s)" % (e0[1], expr_str(e0[2][0]) if e0[2] else "")
+            if agg_src is not None:
+                chk.ob(rule, False, where_of(ci, loopvar), "the labels are enumerated as %s from %s, not read from grid_time" % (ast.unparse(itv)[:50], agg_src),
+                       "one pass per label that occurs in grid_time (SELECT DISTINCT data_interval ... IS NOT NULL)",
+                       key="classify_intervals|per-interval-loop",
+                       why="a stretch of water-level samples between two close drop-outs can contain no grid time: its label exists in no grid_time row, the series query returns nothing and the unpacking aborts classification")
+                return
+    if loopvar is None or not src_known:
+        chk.indeterminate(rule, where_of(ci, loopvar or ci.node), "the loop over the data-interval labels, or the query that feeds it, is not recognised")
+    else:
+        chk.ob(rule, call_arg_ok and src_ok, where_of(ci, loopvar or ci.node),
+               "per-interval loop passes its own label: %s; labels are the distinct non-NULL data intervals: %s" % (call_arg_ok, src_ok),
+               "each gap-free stretch is classified on its own", key="classify_intervals|per-interval-loop",
+               why="a run computed over concatenated stretches would cross a gap")
+
+
 def series_feed_queries(ctx, chk, rule):
     """The SELECTs of classify_interstorms / match_all_storms that feed the positional array code: rows of ONE data interval
     (restricted by the function's data_interval argument), the three series tied to the same instant by equalities, in
@@ -328,6 +379,24 @@ def run(ctx, chk, tier="quick"):
                 return None
             return bl[a.id][2] if bl[a.id][0] == "col" else ""
         c_rain, c_head = col_of(a_rain), col_of(a_head)
+        # ... and it is the whole column: the value that reaches the call is the one bound from the query, not a slice / filter of it
+        bstmts = {b.names[i]: b.stmt for b in bindings(ctx, mas) for i in range(len(b.names)) if b.names[i]}
+        for a_ in (a_rain, a_head):
+            if not (isinstance(a_, ast.Name) and a_.id in bstmts):
+                continue
+            rd = maflow.reaching_defs(a_) or set()
+            bnode = maflow.cfg.node(bstmts[a_.id])
+            others = [maflow.cfg.stmt_of.get(d) for d in rd if d != bnode]
+            for st_ in others:
+                v_ = getattr(st_, "value", None)
+                cut = isinstance(st_, ast.Assign) and isinstance(v_, ast.Subscript) and isinstance(v_.value, ast.Name) and v_.value.id == a_.id
+                if cut:
+                    chk.ob("C03.O1", False, where_of(mas, st_), "%s is cut down before the runs are computed: %s" % (a_.id, ast.unparse(st_)[:70]),
+                           "storms and rises are runs of the whole gap-free stretch read by the series query",
+                           key="match_all_storms|series-cut|%s" % a_.id,
+                           why="a run that begins before the kept part is recorded from the first kept sample on: it is no longer maximal (a rise that starts one step before the first rain of the stretch)")
+                elif st_ is not None:
+                    chk.indeterminate("C03.O1", where_of(mas, st_), "%s is rebound between the series query and match_storms (%s): not read" % (a_.id, ast.unparse(st_)[:60]))
         rt_role = roles.get((mas.fq, a_rt.id)) if isinstance(a_rt, ast.Name) and maflow.is_param(a_rt) else None
         if c_rain is None or c_head is None or rt_role is None:
             chk.indeterminate("C03.O1", where_of(mas, mc), "arguments of match_storms(%s) cannot be traced to the series query / the threshold parameters"
@@ -516,36 +585,7 @@ def run(ctx, chk, tier="quick"):
     # ------------------------------------------------------------ O6 gap isolation
     from ..typestate import lazy_cursor_loops
     lazy_cursor_loops(ctx, chk, "C03.O6", ("classify",), why="execute on the iterated cursor ends the loop over the data intervals after the first: storms and rises of later records are never recorded")
-    ci = ctx.func("classify.classify_intervals")
-    ciflow = Flow.of(ci)
-    loopvar = None
-    call_arg_ok = False
-    for n in ast.walk(ci.node):
-        if isinstance(n, ast.For) and isinstance(n.target, ast.Name):
-            for c in ast.walk(n):
-                if isinstance(c, ast.Call) and ctx.cg.resolve_callee(ci, c.func) == ["classify.populate_zeta_interval"]:
-                    callee = ctx.func("classify.populate_zeta_interval")
-                    idx = callee.params.index("data_interval") if "data_interval" in callee.params else 1
-                    a = c.args[idx] if len(c.args) > idx else None
-                    call_arg_ok = isinstance(a, ast.Name) and a.id == n.target.id
-                    loopvar = n
-    src_ok = False
-    src_known = False
-    if loopvar is not None and isinstance(loopvar.iter, ast.Name):
-        for b in bindings(ctx, ci):
-            if loopvar.iter.id in b.names:
-                sel = b.site.stmt
-                col0 = sel.columns[0][0] if sel.columns else None
-                grouped = bool(sel.group_by) and col0 is not None and len(sel.group_by) == 1 and sel.group_by[0] == col0
-                src_ok = (sel.distinct or grouped) and any(c[0] == "bin" and c[1] == "ISNOT" and c[3] == ("null",) for c in conjuncts(sel.where))
-                src_known = True
-    if loopvar is None or not src_known:
-        chk.indeterminate("C03.O6", where_of(ci, loopvar or ci.node), "the loop over the data-interval labels, or the query that feeds it, is not recognised")
-    else:
-        chk.ob("C03.O6", call_arg_ok and src_ok, where_of(ci, loopvar or ci.node),
-               "per-interval loop passes its own label: %s; labels are the distinct non-NULL data intervals: %s" % (call_arg_ok, src_ok),
-               "each gap-free stretch is classified on its own", key="classify_intervals|per-interval-loop",
-               why="a run computed over concatenated stretches would cross a gap")
+    data_interval_loop(ctx, chk, "C03.O6")
     series_feed_queries(ctx, chk, "C03.O6")
 
 
@@ -647,10 +687,17 @@ def _readers(ctx, chk):
                         from ..idioms import lookup_key_is
                         return lookup_key_is(e, name)
                     a, b_ = idx_of(lo, zs), idx_of(up, zt)
-                    desc = "levels[index(start)%+d : index(thru)%+d]" % (a if a is not None else 99, b_ if b_ is not None else 99)
-                    ok = a == 0 and b_ == 1
-        chk.ob("C03.O4", ok, where_of(f, f.node), "rise samples: %s" % desc, "levels[index(start) : index(thru) + 1]: closed over the rise's samples",
-               key="rise.compute_rise_offsets|interval-slice", why="the final level of a rise is the level at its thru_epoch")
+                    if a is None or b_ is None:
+                        ok = None
+                        desc = "levels[%s : %s]: the bounds are not exact look-ups of the interval's start / thru instants" % (lt[:50], ut[:50])
+                    else:
+                        desc = "levels[index(start)%+d : index(thru)%+d]" % (a, b_)
+                        ok = a == 0 and b_ == 1
+        if ok is None:
+            chk.indeterminate("C03.O4", where_of(f, f.node), "rise samples: %s" % desc)
+        else:
+            chk.ob("C03.O4", ok, where_of(f, f.node), "rise samples: %s" % desc, "levels[index(start) : index(thru) + 1]: closed over the rise's samples",
+                   key="rise.compute_rise_offsets|interval-slice", why="the final level of a rise is the level at its thru_epoch")
     # (3) recession.py mask
     g = ctx.func("recession.compute_offsets")
     rowb = None
